@@ -32,15 +32,16 @@ PROPS["C09"] = {
         {
             "pkg": "primitives/ed25519", "configs": ALL4,
             "tests": {
-                "TestC09Batch": T(1600, 60000, shards={"quick": 8, "thorough": 16}),
+                "TestC09Batch": T(1600, 50000, shards={"quick": 8, "thorough": 16}),
                 "TestC09Expanded": T(1200, 30000, shards={"quick": 4, "thorough": 16}),
+                "TestC09BatchSizes": LIST(),
                 "FuzzC09Batch": FUZZ(90, configs=["default"], workers=4),
             },
         },
         {
             "pkg": "primitives/ed25519/extra/cache", "configs": ALL4,
             "tests": {
-                "TestC09Cache": T(1600, 60000, shards={"quick": 4, "thorough": 16}),
+                "TestC09Cache": T(1600, 40000, shards={"quick": 4, "thorough": 16}),
                 "FuzzC09Cache": FUZZ(90, configs=["default"], workers=4),
             },
         },
